@@ -328,6 +328,10 @@ func (x *Exec) frameObligations(rs *State, fr *fnFrame, ct *Contract, penv *spec
 		if cur == init || allowedAll[key] {
 			continue
 		}
+		if key == "cell_rngpos" {
+			// draw position of math/rand generators: internal to the rand model
+			continue
+		}
 		if _, had := fr.entry.heap[key]; had && fr.entry.heap[key] == cur {
 			continue
 		}
